@@ -14,6 +14,7 @@ CONSTANTS
   Shapes = {"none", "exact", "wholedb", "unrelated", "both", "chain", "swap"}
   KindsUsed = {"createDatabase", "dropDatabase", "alterDatabase", "flush", "createIndex", "dropIndex", "alterIndex", "loadCollection", "releaseCollection", "loadPartitions", "releasePartitions", "createCredential", "deleteCredential", "updateCredential", "createRole", "dropRole", "operateUserRole", "operatePrivilege", "createCollection", "dropCollection", "createPartition", "dropPartition", "insert", "delete", "dropPartitionMsg", "dropCollectionMsg", "import", "waitDatabase", "waitCollection", "waitPartition"}
   StaleMemo = TRUE
+  EventMutated = FALSE
   HKinds = {"createIndex", "createPartition", "dropCollection", "insert", "alterDatabase", "dropDatabase", "loadPartitions", "waitCollection", "operatePrivilege", "createRole"}
   HSDBs = {"default", "other"}
   HColls = {"c1", "c2"}
